@@ -1,12 +1,16 @@
 (* C06 — property theorems only. Statements are pinned by vp/check.py. *)
-From PV Require Import Lib.Base Cbor.Item Cbor.Enc Cbor.Dec Cbor.Api C06.Model C06.Leaves C06.Proofs C06.MapStruct C06.Schemas.
+From Coq Require String.
+From PV Require Import Lib.Base Cbor.Item Cbor.Enc Cbor.Dec Cbor.Api C06.Model C06.Leaves C06.Proofs
+  C06.MapStruct C06.Schema C06.Schemas.
+From PV Require Generated.Schemas.
 Open Scope Z_scope.
 
 (* FULL STATEMENT (differential only): for every era, encode (decode bytes) = bytes on chain
    data and decode (encode v) = v for every value of every era type.
    Proved: the derive semantics modelled by [codec_of] round-trip every typed value of every
-   well-formed schema (array structs with optional trailing fields, flat and index-only
-   enums, Vec, integer / bytes / bool leaves), with any trailing input. *)
+   well-formed schema: array structs with Option fields, #[cbor(map)] structs, flat and
+   index-only enums, #[cbor(tag)], Vec, integer / bytes / text / bool leaves; an opaque leaf
+   (SCustom: hand-written codec, map, set, KeepRaw ...) stands for one raw CBOR item. *)
 Theorem schema_roundtrip :
   forall (s : schema) (v : value) (r : list Z),
     wf_schema s = true -> has_type v s -> dec_schema s (enc_schema s v ++ r) = DOk (v, r).
@@ -20,27 +24,34 @@ Proof.
   intros s v r Hwf Hty. destruct (codec_of_ok s Hwf v r Hty) as (_ & Hn & He). split; assumption.
 Qed.
 
-(* the transcribed schemas are well-formed (unique enum indices in range, integer widths,
-   field counts): decided by computation on every run *)
-Theorem representative_schemas_wf : forallb wf_schema schemas = true.
+(* the schemas REGENERATED from pallas-primitives on this run are well-formed: array-encoded
+   field lists have the indices 0..k-1, map keys and enum indices are distinct and within i64,
+   tags within u64, integer widths known. A clashing or skipped index, or two arms with one
+   index, in the Rust source breaks this theorem. *)
+Theorem generated_schemas_wf : forallb wf_schema_gen Generated.Schemas.all_schemas = true.
 Proof. vm_compute. reflexivity. Qed.
 
-(* #[cbor(map)] structs: integer keys, nil fields omitted, unknown keys skipped, any key order *)
-Theorem map_struct_roundtrip :
-  forall (ms : mschema) (v : value) (r : list Z),
-    wf_mschema ms = true -> c_ty (map_codec ms) v ->
-    c_dec (map_codec ms) (c_enc (map_codec ms) v ++ r) = DOk (v, r).
-Proof. exact map_struct_roundtrip_proof. Qed.
-
-Theorem representative_map_schemas_wf : forallb wf_mschema mschemas = true.
+Theorem generated_names_unique : names_nodup (map fst Generated.Schemas.all_schemas) = true.
 Proof. vm_compute. reflexivity. Qed.
 
-Example map_struct_examples :
-  c_enc (map_codec ms_map_opt) (VRec [VInt 7; VNone; VSome (VBytes [1]); VList []; VNone]) = [163; 0; 7; 5; 65; 1; 9; 128] /\
-  (* the decoder takes the entries in any order, skips unknown keys, and null is None *)
-  c_dec (map_codec ms_map_opt) [164; 9; 128; 24; 77; 130; 1; 2; 0; 7; 2; 246] = DOk (VRec [VInt 7; VNone; VNone; VList []; VNone], []) /\
-  c_dec (map_codec ms_map_opt) [161; 0; 7] = DErr.
-Proof. repeat split; vm_compute; reflexivity. Qed.
+(* the law holds for every generated schema (opaque leaves: any well-formed non-null item) *)
+Theorem generated_schemas_roundtrip :
+  forall (name : String.string) (s : schema) (v : value) (r : list Z),
+    In (name, s) Generated.Schemas.all_schemas -> has_type v s ->
+    dec_schema s (enc_schema s v ++ r) = DOk (v, r).
+Proof.
+  intros name s v r Hin Hty. apply schema_roundtrip_proof; [|exact Hty].
+  pose proof generated_schemas_wf as Hwf. rewrite forallb_forall in Hwf. exact (Hwf (name, s) Hin).
+Qed.
+
+(* which generated schemas have no opaque leaf at all (the translator's list, re-computed here) *)
+Theorem fully_modelled_list :
+  map fst (filter (fun ns => fully_modelled (snd ns)) Generated.Schemas.all_schemas)
+  = Generated.Schemas.fully_modelled_names.
+Proof. vm_compute. reflexivity. Qed.
+
+Theorem test_schemas_wf : forallb wf_schema_gen test_schemas = true.
+Proof. vm_compute. reflexivity. Qed.
 
 (* non-vacuity *)
 Example opt_tail_examples :
@@ -52,9 +63,22 @@ Example opt_tail_examples :
   dec_schema s_opt_tail [159; 7; 24; 9; 255] = DOk (VRec [VInt 7; VSome (VInt 9); VNone; VNone; VNone], []) /\
   (* a missing required field is an error *)
   dec_schema s_opt_tail [128] = DErr /\
-  enc_schema s_certificate_lite (VVar 7 [VVar 0 [VBytes [9]]; VInt 5]) = [131; 7; 130; 0; 65; 9; 5] /\
-  dec_schema s_drep [129; 2] = DOk (VVar 2 [], []) /\
   (* an enum arm, unlike a struct, writes its trailing None fields *)
   enc_schema s_flat_opt (VVar 5 [VNone; VNone]) = [131; 5; 246; 246] /\
   dec_schema s_flat_opt [129; 5] = DOk (VVar 5 [VNone; VNone], []).
+Proof. repeat split; vm_compute; reflexivity. Qed.
+
+Example map_struct_examples :
+  enc_schema s_map_opt (VRec [VInt 7; VNone; VSome (VBytes [1]); VList []; VNone]) = [163; 0; 7; 5; 65; 1; 9; 128] /\
+  (* the decoder takes the entries in any order, skips unknown keys, and null is None *)
+  dec_schema s_map_opt [164; 9; 128; 24; 77; 130; 1; 2; 0; 7; 2; 246] = DOk (VRec [VInt 7; VNone; VNone; VList []; VNone], []) /\
+  dec_schema s_map_opt [161; 0; 7] = DErr.
+Proof. repeat split; vm_compute; reflexivity. Qed.
+
+Example generated_examples :
+  (* conway::Certificate::Reg(AddrKeyhash(09), 5) and a Redeemer whose PlutusData is the raw item 0x80 *)
+  enc_schema Generated.Schemas.g_conway_Certificate (VVar 7 [VVar 0 [VBytes [9]]; VInt 5]) = [131; 7; 130; 0; 65; 9; 5] /\
+  enc_schema Generated.Schemas.g_conway_Redeemer (VRec [VVar 1 []; VInt 3; VRaw [128]; VRec [VInt 1; VInt 2]]) = [132; 1; 3; 128; 130; 1; 2] /\
+  dec_schema Generated.Schemas.g_conway_Redeemer [132; 1; 3; 128; 130; 1; 2] = DOk (VRec [VVar 1 []; VInt 3; VRaw [128]; VRec [VInt 1; VInt 2]], []) /\
+  dec_schema Generated.Schemas.g_conway_DRep [129; 2] = DOk (VVar 2 [], []).
 Proof. repeat split; vm_compute; reflexivity. Qed.
